@@ -367,6 +367,15 @@ void thrift_read_map_begin(thrift_decoder_t* dec,
  * ============================================================================
  */
 
+/* Skip a fixed-size value; running out of input is an error, not a no-op */
+static void skip_fixed(thrift_decoder_t* dec, size_t n) {
+    if (!has_bytes(dec, n)) {
+        set_error(dec, CARQUET_ERROR_THRIFT_TRUNCATED, "Truncated value while skipping");
+        return;
+    }
+    carquet_buffer_reader_skip(&dec->reader, n);
+}
+
 /* Booleans inside a list, set or map occupy one byte each; only a boolean struct
  * field has its value folded into the field header. */
 static void skip_container_element(thrift_decoder_t* dec, thrift_type_t type) {
@@ -401,7 +410,7 @@ void thrift_skip(thrift_decoder_t* dec, thrift_type_t type) {
             break;
 
         case THRIFT_TYPE_BYTE:
-            carquet_buffer_reader_skip(&dec->reader, 1);
+            skip_fixed(dec, 1);
             break;
 
         case THRIFT_TYPE_I16:
@@ -411,7 +420,7 @@ void thrift_skip(thrift_decoder_t* dec, thrift_type_t type) {
             break;
 
         case THRIFT_TYPE_DOUBLE:
-            carquet_buffer_reader_skip(&dec->reader, 8);
+            skip_fixed(dec, 8);
             break;
 
         case THRIFT_TYPE_BINARY: {
@@ -454,7 +463,7 @@ void thrift_skip(thrift_decoder_t* dec, thrift_type_t type) {
         }
 
         case THRIFT_TYPE_UUID:
-            carquet_buffer_reader_skip(&dec->reader, 16);
+            skip_fixed(dec, 16);
             break;
 
         default:
